@@ -61,6 +61,14 @@ def make_handler(kind, calls):
         return C()
     if kind == "bound-method":
         return _Bound(calls).handle
+    if kind == "extra-default-parameter":
+        # callable with one argument, declares more (def h(err, sink=errors)); *args handlers such as print likewise
+        def h(err, sink=calls):
+            sink.append(err)
+
+        return h
+    if kind == "varargs":
+        return lambda *a, **k: calls.append(a[0])
     if kind == "returns-true":
         # the handler's return value has no documented meaning: "handled" flags, write() counts ... must change nothing
         return lambda err: calls.append(err) or True
@@ -234,7 +242,7 @@ def s_damage(draw, tier):
                 reps.append(streams.item("frame", base, repeat=True))
         k = draw(st.integers(0, len(items)))
         items = items[:k] + reps + items[k:]
-    return {"items": items, "mode": draw(st.sampled_from(["ignore", "log-handler", "log-nohandler", "raise"])), "handler": draw(st.sampled_from(["function", "collector", "bound-method", "returns-true", "returns-count"])), "handoff": draw(st.integers(0, 3)) == 0, **({"sock": draw(st.lists(st.sampled_from([0, 1, 1]), min_size=1, max_size=6)), "bufsize": draw(st.sampled_from([1, 16, 4096]))} if draw(st.integers(0, 3)) == 0 else {})}
+    return {"items": items, "mode": draw(st.sampled_from(["ignore", "log-handler", "log-nohandler", "raise"])), "handler": draw(st.sampled_from(["function", "collector", "bound-method", "returns-true", "returns-count", "extra-default-parameter", "varargs"])), "handoff": draw(st.integers(0, 3)) == 0, **({"sock": draw(st.lists(st.sampled_from([0, 1, 1]), min_size=1, max_size=6)), "bufsize": draw(st.sampled_from([1, 16, 4096]))} if draw(st.integers(0, 3)) == 0 else {})}
 
 
 def e_tiny(tier, shard, nshards):
